@@ -51,7 +51,7 @@ func diffOptNoOpt(c *ev.Ctx, id, class, script string, vars map[string]model.Val
 }
 
 // constant fragments the peephole pass looks at
-var c03Frags = []string{"1 + 2", "2 * 3 - 1", "7 - 9", "65533 + 1", "65534 + 1", "65535 - 1", "256 * 256", "255 * 257", "8 / 2", "7 / 2", "0 / 5", "3 == 3", "3 == 4", "1 != 1", "2 != 3", "true", "false", "0", "1", "65534", "65535", "(1 + 2) * 3", "1 + 2 * 3", "10 - 2 - 3", "100 / 10 / 5", "2 * 3 == 6", "1 + 1 != 2"}
+var c03Frags = []string{"1 + 2", "2 * 3 - 1", "7 - 9", "65533 + 1", "65534 + 1", "65535 - 1", "256 * 256", "255 * 257", "8 / 2", "7 / 2", "0 / 5", "3 == 3", "3 == 4", "1 != 1", "2 != 3", "true", "false", "0", "1", "65534", "65535", "(1 + 2) * 3", "1 + 2 * 3", "10 - 2 - 3", "100 / 10 / 5", "2 * 3 == 6", "1 + 1 != 2", "255", "256", "257", "512", "4096", "65280", "128 + 128", "16 * 16", "256 == 256", "256 != 512", "1 - 2", "300 * 300", "0 - 1 + 2", "5 + (1 - 2) * 3", "1 / 0", "2 - 2", "256 - 256"}
 
 // contexts: %F %G %H are replaced by fragments
 var c03Ctx = []string{
